@@ -1249,7 +1249,8 @@ func c07IsKeyOf(m, k *c07Node) bool {
 // flowMode: 0 = holder style as drawn, 'b' = block holder, 'f' = flow holder if the holder allows it.
 // neighbour: a second, independent diagnosed construct is added after the target in the same
 // holder (a further mapping entry or sequence element holding an erroneous placeholder).
-func c07Build(group string, seed uint64, sh c07Shift, cat *c07Catalogue, forceStyle byte, flowMode byte, neighbour bool) *c07Built {
+// prop (optional): node properties ("&a ", "!!str  ", "&a !!str " ...) written before the target.
+func c07Build(group string, seed uint64, sh c07Shift, cat *c07Catalogue, forceStyle byte, flowMode byte, neighbour bool, prop ...string) *c07Built {
 	rr := &Rand{s: seed}
 	b := &c07Built{group: group, ok: true, info: map[string]int{}}
 	w := c07NewWF(rr)
@@ -1320,6 +1321,9 @@ func c07Build(group string, seed uint64, sh c07Shift, cat *c07Catalogue, forceSt
 	}
 	b.target.style = st
 	b.style = st
+	if len(prop) > 0 {
+		b.target.prop = prop[0]
+	}
 	b.src = c07Emit(b.root)
 	b.shifts = append(b.shifts, "col", "lines")
 	return b
